@@ -433,7 +433,7 @@ def _weighting(ctx, cv):
         ctx.ob("R-ENUM", cv, "V(a,b|x,y) weighted by pi(x,y) of the same question pair", None, "weighting statement not recognised", required=False)
 
 
-def _product_game(ctx, init):
+def _product_game(ctx, init, role_names=("A_out", "B_out", "A_in", "B_in")):
     m = ctx.model
     N = Normalizer(m, init, inline=False)
     # names from pred_mat.shape
@@ -441,7 +441,7 @@ def _product_game(ctx, init):
     for n in walk_no_nested(init.node):
         if isinstance(n, ast.Assign) and isinstance(n.targets[0], ast.Tuple) and unparse(n.value) == "pred_mat.shape":
             for pos, e in enumerate(n.targets[0].elts):
-                roles[e.id] = ("A_out", "B_out", "A_in", "B_in")[pos]
+                roles[e.id] = role_names[pos]
     if not roles:
         ctx.ob("R-ENUM", init, "product game construction", None, "reps branch not recognised", required=False)
         return
@@ -477,8 +477,8 @@ def _product_game(ctx, init):
         if isinstance(n, ast.Assign) and isinstance(n.targets[0], ast.Subscript) and isinstance(n.value, ast.Subscript) and \
                 isinstance(n.value.value, ast.Name) and n.value.value.id == "pred_mat" and isinstance(n.value.slice, ast.Tuple):
             el = n.value.slice.elts
-            ok = len(el) == 4 and isinstance(el[0], ast.Slice) and isinstance(el[1], ast.Slice) and isinstance(el[2], ast.Subscript) and isinstance(el[3], ast.Subscript) \
-                and unparse(el[2].slice) == unparse(el[3].slice) == unparse(n.targets[0].slice) and unparse(el[2].value) != unparse(el[3].value)
+            ok = len(el) >= 4 and all(isinstance(e, ast.Slice) for e in el[:-2]) and isinstance(el[-2], ast.Subscript) and isinstance(el[-1], ast.Subscript) \
+                and unparse(el[-2].slice) == unparse(el[-1].slice) == unparse(n.targets[0].slice) and unparse(el[-2].value) != unparse(el[-1].value)
             ctx.ob("R-ENUM", init, "factor k uses digit k of both question odometers", ok, "pred_mat[:, :, i_ind[k], j_ind[k]] -> to_tensor[k]" if ok else f"`{unparse(n)}`", n)
     r_thread(ctx, init, "reps", "tensor.tensor", formal=None) if False else None
     # prob tensor power
@@ -541,11 +541,11 @@ def _povm_family(ctx, f, sk, group, roles, q_role, a_role, target_desc, target_p
            f"sum_a {group}[q, a] == {target_desc} for all q" if good else why, node2)
 
 
-def _seesaw(ctx, f, who):
+def _seesaw(ctx, f, who, role_names=("A_out", "B_out", "A_in", "B_in"), group_a="alice_povms", group_b="bob_povms", bob_target=None, check_shape=True):
     m = ctx.model
     sk = Skeleton(m, f)
-    roles = shape_roles(m, f)
-    group = "alice_povms" if who == "A" else "bob_povms"
+    roles = shape_roles(m, f, roles=role_names)
+    group = group_a if who == "A" else group_b
     if not sk.probs:
         ctx.ob("R-SDP", f, "problem constructed", None, "no cvxpy.Problem", required=False)
         return
@@ -561,17 +561,17 @@ def _seesaw(ctx, f, who):
         tr = [c for c in sk.reaching()[0] if c.rel == "==" and {repr(c.lhs), repr(c.rhs)} == {repr(("call", "cvxpy.trace", (("n", "tau"),), ())), repr(("c", 1))}]
         ctx.ob("R-SDP", f, "trace(tau) == 1", bool(tr), "tau is a density operator" if tr else "normalisation of tau missing")
     else:
-        _povm_family(ctx, f, sk, group, roles, "B_in", "B_out", "identity",
-                     lambda t: t[0] == "call" and t[1] in ("numpy.identity", "numpy.eye") and t[2] and t[2][0] == ("n", "dim"))
+        _povm_family(ctx, f, sk, group, roles, "B_in", "B_out", "identity", bob_target or
+                     (lambda t: t[0] == "call" and t[1] in ("numpy.identity", "numpy.eye") and t[2] and t[2][0] == ("n", "dim")))
     # objective: every (x, y, a, b) term pi(x,y) V(a,b|x,y) <B_b^y, A_a^x>
-    _objective_terms(ctx, f, sk, roles, ("alice_povms", "bob_povms"))
+    _objective_terms(ctx, f, sk, roles, (group_a, group_b))
     # S3 the returned value is this problem's optimum
     rets, N = return_terms(m, f, inline=True)
     oks = any("solve" in repr(t) for _, _, t in rets)
     ctx.ob("R-SDP", f, "S3 returns the optimum of this problem", oks, "problem.solve() is returned" if oks else "returned value does not come from problem.solve()")
     # variable shape (dim, dim)
     for v in sk.vars:
-        if v.name == group:
+        if v.name == group and check_shape:
             oksh = v.shape == ("tuple", ("n", "dim"), ("n", "dim"))
             ctx.ob("R-SHAPE", f, f"{group} are dim x dim Hermitian", oksh and v.attrs.get("hermitian") == ("c", True),
                    "Variable((dim, dim), hermitian=True)" if oksh else f"shape {show(v.shape) if v.shape else '?'}", v.node)
@@ -596,7 +596,16 @@ def _objective_terms(ctx, f, sk, roles, groups, pred_positions=("A_out", "B_out"
             if not preds:
                 continue
             idx = preds[0][2]
-            got = tuple(loops.get(x[1]) if x[0] == "n" else None for x in idx[1:]) if idx[0] == "tuple" else ()
+            if idx[0] == "tuple":
+                idx = ("tuple",) + tuple(x for x in idx[1:] if x[0] != "slice")
+            def _role(x):
+                if x[0] == "n":
+                    return loops.get(x[1])
+                # answer function looked up at the question: f[x] has the answer role of x's player
+                if x[0] == "sub" and x[2][0] == "n" and (loops.get(x[2][1]) or "").endswith("_in"):
+                    return loops[x[2][1]][0] + "_out"
+                return None
+            got = tuple(_role(x) for x in idx[1:]) if idx[0] == "tuple" else ()
             ok = got == tuple(pred_positions)
             ctx.ob("R-ENUM", f, "predicate indexed V[a, b, x, y] by role", ok,
                    "subscripts are (Alice answer, Bob answer, Alice question, Bob question)" if ok else f"pred_mat subscripts have roles {got}", n)
@@ -605,7 +614,7 @@ def _objective_terms(ctx, f, sk, roles, groups, pred_positions=("A_out", "B_out"
                 gotp = tuple(loops.get(x[1]) if x[0] == "n" else None for x in pidx[1:]) if pidx[0] == "tuple" else ()
                 okp = gotp == (pred_positions[2], pred_positions[3])
                 ctx.ob("R-ENUM", f, "distribution indexed pi[x, y] by role", okp, "prob_mat[x, y]" if okp else f"prob_mat subscripts have roles {gotp}", n)
-            cover = sorted(v for v in loops.values() if v)
+            cover = sorted({v for v in loops.values() if v} | {g_ for g_ in got if g_ and g_.endswith("_out") and g_ not in loops.values()})
             ctx.ob("R-ENUM", f, "objective sums over all questions and answers", cover == sorted(pred_positions),
                    "four nested loops over both players' questions and answers" if cover == sorted(pred_positions) else f"objective loops cover roles {cover}", n)
             # measurement operators indexed [question, answer] of the right player
@@ -614,7 +623,7 @@ def _objective_terms(ctx, f, sk, roles, groups, pred_positions=("A_out", "B_out"
                 if subs:
                     gi = subs[0][2]
                     gr = tuple(loops.get(x[1]) if x[0] == "n" else None for x in gi[1:]) if gi[0] == "tuple" else ()
-                    want = ("A_in", "A_out") if g.startswith("alice") else ("B_in", "B_out")
+                    want = ("A_in", "A_out") if g == groups[0] else ("B_in", "B_out")
                     ctx.ob("R-ENUM", f, f"{g} indexed [question, answer] of its own player", gr == want,
                            f"{g}[{want[0]}, {want[1]}]" if gr == want else f"{g} subscripts have roles {gr}", n)
             break
@@ -622,10 +631,10 @@ def _objective_terms(ctx, f, sk, roles, groups, pred_positions=("A_out", "B_out"
         ctx.ob("R-ENUM", f, "predicate indexed V[a, b, x, y] by role", None, "objective accumulation not recognised", required=False)
 
 
-def _nonsignaling(ctx, f):
+def _nonsignaling(ctx, f, role_names=("A_out", "B_out", "A_in", "B_in")):
     m = ctx.model
     sk = Skeleton(m, f)
-    roles = shape_roles(m, f)
+    roles = shape_roles(m, f, roles=role_names)
     if not sk.probs:
         ctx.ob("R-SDP", f, "problem constructed", None, "no cvxpy.Problem", required=False)
         return
